@@ -5,12 +5,14 @@ package tun
 
 import (
 	"encoding/binary"
+	"errors"
 	"fmt"
 	"net"
 	"runtime"
 	"sort"
 	"strings"
 	"sync"
+	"sync/atomic"
 	"time"
 
 	"github.com/vapourismo/knx-go/knx"
@@ -101,6 +103,9 @@ type Plan struct {
 	TailUs   int           `json:"tail_us,omitempty"`
 	DrainUs  int           `json:"drain_us,omitempty"` // before the cleanup Close: read Inbound until it stays silent this long
 	Ref      *RefGw        `json:"ref,omitempty"` // C05: reference gateway + lossy network for tunnelling traffic
+	// FailOut: indices (counting every frame the client hands to its socket after the connection is up,
+	// from 0) whose transmission fails with a socket error: the frame is not transmitted.
+	FailOut []int `json:"fail_out,omitempty"`
 	Group    bool          `json:"group,omitempty"`
 }
 
@@ -317,10 +322,14 @@ type Sim struct {
 	reconnInFlite bool
 	deferred      []func()
 	nextChan      int
+	nOut          int
+	connected     atomic.Bool
 	ref           *refState
 	timers        sync.WaitGroup // outstanding AfterFunc deliveries
 	stopped       bool
 }
+
+var errSockScripted = errors.New("scripted socket error")
 
 func us(n int) time.Duration { return time.Duration(n) * time.Microsecond }
 
@@ -398,8 +407,25 @@ func (s *Sim) injectConnOK(ch int) {
 func (s *Sim) onSend(f *common.OutFrame) error {
 	e := Ev{K: "out", Hex: fmt.Sprintf("%x", f.Bytes)}
 	describe(&e, f.Svc)
-	s.Tr.add(e)
 	p := s.Plan
+	if _, isConn := f.Svc.(*knxnet.ConnReq); !isConn || s.connected.Load() {
+		s.mu.Lock()
+		k := s.nOut
+		s.nOut++
+		fail := false
+		for _, x := range p.FailOut {
+			if x == k {
+				fail = true
+			}
+		}
+		s.mu.Unlock()
+		if fail {
+			e.Err = errSockScripted.Error()
+			s.Tr.add(e)
+			return errSockScripted // not transmitted: the gateway never sees it
+		}
+	}
+	s.Tr.add(e)
 	switch v := f.Svc.(type) {
 	case *knxnet.ConnReq:
 		s.mu.Lock()
@@ -698,6 +724,7 @@ func (s *Sim) Run() *Result {
 		s.Tun, err = knx.VerifNewTunnel(s.Sock, knxnet.TunnelLayerData, cfg)
 	}
 	s.Tr.add(Ev{K: "conn<", Err: errStr(err)})
+	s.connected.Store(true)
 	if err != nil {
 		res.ConnErr = err.Error()
 		s.finish()
